@@ -248,6 +248,13 @@ def run(ctx):
         reads = span_reads(ctx, f)
         ctx.ob("C03.dataflow.bundle-span-reaches-leaves", f.key, "read of self.span in the Multiple branch", bool(reads),
                "F10: into_vec never reads the bundle's span, so an unspanned leaf of a spanned bundle stays unspanned after flatten / conversion to diagnostics")
+    f = ctx.fn(E + "flatten")
+    if f:
+        iv = ctx.find_calls(f, r"^darling_core::error::Error::into_vec$")
+        rets_ = [b for b in sorted(f.normal_blocks()) if f.term(b)["k"] == "return"]
+        ok = len(iv) == 1 and ctx.expr(f, iv[0][1]["args"][0]) == "self" and all(f.dominates(iv[0][0], r) for r in rets_)
+        ctx.ob("C03.P.flatten-rehomes-on-every-path", f.key, "flatten() goes through into_vec(self) on every path", ok,
+               "into_vec is what hands the bundle's span (and location) to its leaves; a path of flatten() that bypasses it leaves unspanned leaves unspanned")
     # syn::Error conversion
     f = ctx.fn("darling_core::error::<impl core::convert::From<darling_core::error::Error> for syn::error::Error>::from")
     if f:
